@@ -39,7 +39,7 @@ def cases(draw):
         wrt = draw(st.sampled_from(allv))
     pts = draw(gen.points(allv, k=3))
     cfg = draw(st.sampled_from(["default", "default", "lowthr"]))
-    return {"env": env, "expr": recipe, "wrt": wrt, "points": pts, "config": cfg}
+    return {"env": env, "expr": recipe, "wrt": wrt, "points": pts, "config": cfg, "wrt_fresh": draw(st.integers(0, 3)) == 0}
 
 
 def strategy(tier):
@@ -68,6 +68,11 @@ def check(case):
         if not is_expr(e):
             return Result.discard("not-an-expression", classes)
         v = b.var_objects()[wrt]
+        if case.get("wrt_fresh"):
+            # variables are identified by name: an equal-by-name, freshly created Variable must differentiate the same
+            from optyx import Variable
+            v = Variable(wrt)
+            classes.append("wrt:fresh-object")
         try:
             g1 = gradient(e, v)
             g2 = gradient(e, v)  # warm cache
